@@ -318,7 +318,7 @@ func (c *compiler) setup() {
 // used in setup()
 func (c *compiler) setupErrorStrings() {
 	createErrorString := func(msg string) *ir.Global {
-		error_string := c.mod.NewGlobalDef("", constant.NewCharArrayFromString(msg))
+		error_string := c.mod.NewGlobalDef("", irutil.NewCString(msg)) // with the terminating NUL that printf needs
 		error_string.Linkage = enum.LinkageInternal
 		error_string.Visibility = enum.VisibilityDefault
 		error_string.Immutable = true
